@@ -347,10 +347,8 @@ def checkpointNoLock (s : Eng) : M Eng := do
   if s.dbFile.isNone then return s
   if s.wal.isNone then return s
   let wal := s.wal.getD ByteArray.empty
-  let (offs, commit) ← liftCk s (walPageOffsets wal)
+  let (offs, commit) ← liftCk s (walPageOffsets wal s.pageSize)
   let s ← (if offs.isEmpty then pure s else do
-    let hps := match readWalHeader wal with | .ok (.ok h) => h.pageSize | _ => 0
-    ensure s (¬ (hps ≠ s.pageSize)) .err
     let s ← offs.foldlM (fun (s : Eng) e => writeDatabasePage s e.1 (wal.extract (e.2 + 24) (e.2 + 24 + s.pageSize))) s
     let s ← truncateDatabaseFile s commit
     pure { s with pageN := commit })
